@@ -259,7 +259,7 @@ Proof.
     + apply N.ltb_lt in H. rewrite go_encode_big_canonical.
       step; [apply dec_big_complete, compact_decode_encode; exact H|cbv beta iota]. apply succeeds_ret.
     + apply N.ltb_lt in H. rewrite go_encode_u128_canonical. apply succeeds_tick_seq.
-      step; [apply succeeds_lift; unfold read_exact; apply take_le_bytes|cbv beta iota].
+      step; [apply succeeds_lift; rewrite read_exact_take; apply take_le_bytes|cbv beta iota].
       rewrite le_val_split8 by apply le_bytes_length.
       rewrite le_val_le_bytes_small by exact H. apply succeeds_ret.
   - (* VZ *) intros z t r W H Gu. destruct t; try discriminate H; cbn [has_type has_uint57] in *; dec_start.
